@@ -72,4 +72,302 @@ theorem sequencerByRollappByStatusKey_eq :
 /-- the decoder the source currently has is the exact (length-respecting) one -/
 theorem decodePacketKey_eq (s : Bytes) : Gen.Keys.decodePacketKey s = decodePacketKeyExact s := rfl
 
+-- time-sorted keys / sequencer key families -------------------------------------------------------
+
+theorem sequencerKey_eq : Gen.Keys.sequencerKey = sequencerKey := by
+  funext a; simp [Gen.Keys.sequencerKey, sequencerKey, sep]
+
+theorem proposerByRollappKey_eq : Gen.Keys.proposerByRollappKey = proposerByRollappKey := by
+  funext a; simp [Gen.Keys.proposerByRollappKey, proposerByRollappKey, sep]
+
+theorem successorByRollappKey_eq : Gen.Keys.successorByRollappKey = successorByRollappKey := by
+  funext a; simp [Gen.Keys.successorByRollappKey, successorByRollappKey, sep]
+
+theorem noticePeriodQueueKey_eq : Gen.Keys.noticePeriodQueueKey = noticePeriodQueueKey := rfl
+
+theorem noticeQueueByTimeKey_eq : Gen.Keys.noticeQueueByTimeKey = noticeQueueByTimeKey := by
+  funext t; rfl
+
+theorem noticeQueueBySeqTimeKey_eq : Gen.Keys.noticeQueueBySeqTimeKey = noticeQueueBySeqTimeKey := by
+  funext a t
+  simp [Gen.Keys.noticeQueueBySeqTimeKey, noticeQueueBySeqTimeKey, noticeQueueByTimeKey_eq, sep]
+
+/-- `utils.EncodeTimeToKey` (make + two copies = prefix followed by `sdk.FormatTimeBytes(endTime)`):
+    the statement listing `Keys.encodeTimeToKey` was written against -/
+theorem encodeTimeToKey_listing : Gen.Keys.encodeTimeToKeyListing =
+  ["func EncodeTimeToKey(queueKey []byte, endTime time.Time) []byte",
+   "  timeBz := sdk.FormatTimeBytes(endTime)",
+   "  prefixL := len(queueKey)",
+   "  bz := make([]byte, prefixL+len(timeBz))",
+   "  copy(bz[:prefixL], queueKey)",
+   "  copy(bz[prefixL:], timeBz)",
+   "  return bz"] := rfl
+
+/-- the iterator bounds `Keys.noticeQueueRange` mirrors:
+    `store.Iterator(NoticePeriodQueueKey, PrefixEndBytes(NoticeQueueByTimeKey(*endTime)))` -/
+theorem noticeQueue_listing : Gen.Keys.noticeQueueListing =
+  ["func (k Keeper) NoticeQueue(ctx sdk.Context, endTime *time.Time) ([]types.Sequencer, error)",
+   "  ret := []types.Sequencer{}",
+   "  store := ctx.KVStore(k.storeKey)",
+   "  prefix := types.NoticePeriodQueueKey",
+   "  if endTime != nil",
+   "    prefix = types.NoticeQueueByTimeKey(*endTime)",
+   "  iterator := store.Iterator(types.NoticePeriodQueueKey, storetypes.PrefixEndBytes(prefix))",
+   "  defer iterator.Close()",
+   "  for ; iterator.Valid(); iterator.Next()",
+   "    addr := string(iterator.Value())",
+   "    seq, err := k.RealSequencer(ctx, string(iterator.Value()))",
+   "    if err != nil",
+   "      return nil, gerrc.ErrInternal",
+   "    ret = append(ret, seq)",
+   "  return ret, nil"] := rfl
+
+theorem noticeElapsedProposers_listing : Gen.Keys.noticeElapsedProposersListing =
+  ["func (k Keeper) NoticeElapsedProposers(ctx sdk.Context, endTime time.Time) ([]types.Sequencer, error)",
+   "  return k.NoticeQueue(ctx, &endTime)"] := rfl
+
+-- buy-order ids ---------------------------------------------------------------------------------------
+
+theorem buyOrderIdTypeDymNamePrefix_eq : Gen.Keys.buyOrderIdTypeDymNamePrefix = buyOrderIdPrefix .name := rfl
+theorem buyOrderIdTypeAliasPrefix_eq : Gen.Keys.buyOrderIdTypeAliasPrefix = buyOrderIdPrefix .alias := rfl
+
+/-- the validator `Keys.parseBuyOrderId` / `Keys.isValidBuyOrderId` was written against -/
+theorem isValidBuyOrderId_listing : Gen.Keys.isValidBuyOrderIdListing =
+  ["func IsValidBuyOrderId(id string) bool",
+   "  if len(id) < 3",
+   "    return false",
+   "  switch id[:2]",
+   "    case BuyOrderIdTypeDymNamePrefix",
+   "    case BuyOrderIdTypeAliasPrefix",
+   "    default",
+   "      return false",
+   "  ui, err := strconv.ParseUint(id[2:], 10, 64)",
+   "  return err == nil && ui > 0"] := rfl
+
+/-- the constructor `Keys.createBuyOrderId` was written against -/
+theorem createBuyOrderId_listing : Gen.Keys.createBuyOrderIdListing =
+  ["func CreateBuyOrderId(_type AssetType, i uint64) string",
+   "  var prefix string",
+   "  switch _type",
+   "    case TypeName",
+   "      prefix = BuyOrderIdTypeDymNamePrefix",
+   "    case TypeAlias",
+   "      prefix = BuyOrderIdTypeAliasPrefix",
+   "    default",
+   "      panic()",
+   "  buyOrderId := prefix + math.NewIntFromUint64(i).String()",
+   "  if !IsValidBuyOrderId(buyOrderId)",
+   "    panic()",
+   "  return buyOrderId"] := rfl
+
+-- IRO denoms and plan keys ------------------------------------------------------------------------------
+
+theorem iroDenom_eq : Gen.Keys.iRODenom = iroDenom := by funext r; rfl
+theorem iroTokenPrefix_eq : Gen.Keys.iROTokenPrefix = iroTokenPrefix := rfl
+theorem planKey_eq : Gen.Keys.planKey = planKey := by funext r; simp [Gen.Keys.planKey, planKey, sep]
+theorem plansByRollappKey_eq : Gen.Keys.plansByRollappKey = plansByRollappKey := by
+  funext r; simp [Gen.Keys.plansByRollappKey, plansByRollappKey, sep]
+theorem lastPlanIdKey_eq : Gen.Keys.lastPlanIdKey = [3] := rfl
+theorem iroParamsKey_eq : Gen.Keys.iroParamsKey = [4] := rfl
+
+theorem rollappIDFromIRODenom_listing : Gen.Keys.rollappIDFromIRODenomListing =
+  ["func RollappIDFromIRODenom(denom string) (string, bool)",
+   "  return strings.CutPrefix(denom, IROTokenPrefix)"] := rfl
+
+/-- plans are keyed by the decimal rendering of their id (`Keys.planKeyById`) -/
+theorem setPlan_listing : Gen.Keys.setPlanListing =
+  ["func (k Keeper) SetPlan(ctx sdk.Context, plan types.Plan)",
+   "  store := ctx.KVStore(k.storeKey)",
+   "  b := k.cdc.MustMarshal(&plan)",
+   "  store.Set(types.PlanKey(fmt.Sprintf(\"%d\", plan.Id)), b)",
+   "  planByRollappKey := types.PlansByRollappKey(plan.RollappId)",
+   "  store.Set(planByRollappKey, []byte(fmt.Sprintf(\"%d\", plan.Id)))"] := rfl
+
+-- lockup reference keys --------------------------------------------------------------------------------
+
+theorem lockupKeyIndexSeparator_eq : Gen.Keys.lockupKeyIndexSeparator = [0xFF] := rfl
+/-- `combineKeys` joins with `KeyIndexSeparator` -/
+theorem combineKeys_sep (a b : Bytes) (r : List Bytes) :
+    combineKeys (a :: b :: r) = a ++ Gen.Keys.lockupKeyIndexSeparator ++ combineKeys (b :: r) := rfl
+theorem unlockingPrefix_eq : unlockingPrefix true = Gen.Keys.lockupKeyPrefixUnlocking ∧
+    unlockingPrefix false = Gen.Keys.lockupKeyPrefixNotUnlocking := ⟨rfl, rfl⟩
+/-- the sub-key and family prefix bytes the model hard-codes (5, 6 and 7..14) -/
+theorem lockup_prefix_bytes :
+    Gen.Keys.lockupKeyPrefixTimestamp = [5] ∧ Gen.Keys.lockupKeyPrefixDuration = [6] ∧
+    Gen.Keys.lockupKeyPrefixLockDuration = [7] ∧ Gen.Keys.lockupKeyPrefixAccountLockDuration = [8] ∧
+    Gen.Keys.lockupKeyPrefixDenomLockDuration = [9] ∧ Gen.Keys.lockupKeyPrefixAccountDenomLockDuration = [10] ∧
+    Gen.Keys.lockupKeyPrefixLockTimestamp = [11] ∧ Gen.Keys.lockupKeyPrefixAccountLockTimestamp = [12] ∧
+    Gen.Keys.lockupKeyPrefixDenomLockTimestamp = [13] ∧ Gen.Keys.lockupKeyPrefixAccountDenomLockTimestamp = [14] :=
+  ⟨rfl, rfl, rfl, rfl, rfl, rfl, rfl, rfl, rfl, rfl⟩
+
+/-- the source `Keys.combineKeys` was written against -/
+theorem lockup_combineKeys_listing_pinned : Gen.Keys.lockup_combineKeys_listing =
+  ["func combineKeys(keys ...[]byte) []byte",
+   "  return bytes.Join(keys, types.KeyIndexSeparator)"] := rfl
+
+/-- the source `Keys.lkTimeKey` (prefix, 8-byte length, formatted time) was written against -/
+theorem lockup_getTimeKey_listing_pinned : Gen.Keys.lockup_getTimeKey_listing =
+  ["func getTimeKey(timestamp time.Time) []byte",
+   "  timeBz := sdk.FormatTimeBytes(timestamp)",
+   "  timeBzL := len(timeBz)",
+   "  prefixL := len(types.KeyPrefixTimestamp)",
+   "  bz := make([]byte, prefixL+8+timeBzL)",
+   "  copy(bz[:prefixL], types.KeyPrefixTimestamp)",
+   "  copy(bz[prefixL:prefixL+8], sdk.Uint64ToBigEndian(uint64(timeBzL)))",
+   "  copy(bz[prefixL+8:prefixL+8+timeBzL], timeBz)",
+   "  return bz"] := rfl
+
+/-- the source `Keys.lkDurationKey` (clamp, big-endian, joined to the prefix) was written against -/
+theorem lockup_getDurationKey_listing_pinned : Gen.Keys.lockup_getDurationKey_listing =
+  ["func getDurationKey(duration time.Duration) []byte",
+   "  if duration < 0",
+   "    duration = 0",
+   "  key := sdk.Uint64ToBigEndian(uint64(duration))",
+   "  return combineKeys(types.KeyPrefixDuration, key)"] := rfl
+
+/-- the source `Keys.durationLockRefKeys` was written against -/
+theorem lockup_durationLockRefKeys_listing_pinned : Gen.Keys.lockup_durationLockRefKeys_listing =
+  ["func durationLockRefKeys(lock types.PeriodLock) ([][]byte, error)",
+   "  refKeys := [][]byte{}",
+   "  durationKey := getDurationKey(lock.Duration)",
+   "  owner, err := sdk.AccAddressFromBech32(lock.Owner)",
+   "  if err != nil",
+   "    return nil, err",
+   "  refKeys = append(refKeys, combineKeys(types.KeyPrefixLockDuration, durationKey))",
+   "  refKeys = append(refKeys, combineKeys(types.KeyPrefixAccountLockDuration, owner, durationKey))",
+   "  for _, coin := range lock.Coins",
+   "    denomBz := []byte(coin.Denom)",
+   "    refKeys = append(refKeys, combineKeys(types.KeyPrefixDenomLockDuration, denomBz, durationKey))",
+   "    refKeys = append(refKeys, combineKeys(types.KeyPrefixAccountDenomLockDuration, owner, denomBz, durationKey))",
+   "  return refKeys, nil"] := rfl
+
+/-- the source `Keys.lockRefKeys` was written against -/
+theorem lockup_lockRefKeys_listing_pinned : Gen.Keys.lockup_lockRefKeys_listing =
+  ["func lockRefKeys(lock types.PeriodLock) ([][]byte, error)",
+   "  refKeys, _ := durationLockRefKeys(lock)",
+   "  timeKey := getTimeKey(lock.EndTime)",
+   "  owner, err := sdk.AccAddressFromBech32(lock.Owner)",
+   "  if err != nil",
+   "    return nil, err",
+   "  refKeys = append(refKeys, combineKeys(types.KeyPrefixLockTimestamp, timeKey))",
+   "  refKeys = append(refKeys, combineKeys(types.KeyPrefixAccountLockTimestamp, owner, timeKey))",
+   "  for _, coin := range lock.Coins",
+   "    denomBz := []byte(coin.Denom)",
+   "    refKeys = append(refKeys, combineKeys(types.KeyPrefixDenomLockTimestamp, denomBz, timeKey))",
+   "    refKeys = append(refKeys, combineKeys(types.KeyPrefixAccountDenomLockTimestamp, owner, denomBz, timeKey))",
+   "  return refKeys, nil"] := rfl
+
+/-- the source `Keys.unlockingPrefix`, `Keys.iter*`, `Keys.lkFamilyPrefix`, `Keys.lockRefStoreKey` was written against -/
+theorem lockupIteratorsListing_pinned : Gen.Keys.lockupIteratorsListing =
+  ["func unlockingPrefix(isUnlocking bool) []byte",
+   "  if isUnlocking",
+   "    return types.KeyPrefixUnlocking",
+   "  return types.KeyPrefixNotUnlocking",
+   "func (k Keeper) iteratorAfterTime(ctx sdk.Context, prefix []byte, time time.Time) storetypes.Iterator",
+   "  store := ctx.KVStore(k.storeKey)",
+   "  timeKey := getTimeKey(time)",
+   "  key := combineKeys(prefix, timeKey)",
+   "  return store.Iterator(storetypes.PrefixEndBytes(key), storetypes.PrefixEndBytes(prefix))",
+   "func (k Keeper) iteratorBeforeTime(ctx sdk.Context, prefix []byte, maxTime time.Time) storetypes.Iterator",
+   "  store := ctx.KVStore(k.storeKey)",
+   "  timeKey := getTimeKey(maxTime)",
+   "  key := combineKeys(prefix, timeKey)",
+   "  return store.Iterator(prefix, storetypes.PrefixEndBytes(key))",
+   "func (k Keeper) iteratorDuration(ctx sdk.Context, prefix []byte, duration time.Duration) storetypes.Iterator",
+   "  durationKey := getDurationKey(duration)",
+   "  key := combineKeys(prefix, durationKey)",
+   "  store := ctx.KVStore(k.storeKey)",
+   "  return storetypes.KVStorePrefixIterator(store, key)",
+   "func (k Keeper) iteratorLongerDuration(ctx sdk.Context, prefix []byte, duration time.Duration) storetypes.Iterator",
+   "  store := ctx.KVStore(k.storeKey)",
+   "  durationKey := getDurationKey(duration)",
+   "  key := combineKeys(prefix, durationKey)",
+   "  return store.Iterator(key, storetypes.PrefixEndBytes(prefix))",
+   "func (k Keeper) iteratorShorterDuration(ctx sdk.Context, prefix []byte, duration time.Duration) storetypes.Iterator",
+   "  store := ctx.KVStore(k.storeKey)",
+   "  durationKey := getDurationKey(duration)",
+   "  key := combineKeys(prefix, durationKey)",
+   "  return store.Iterator(prefix, key)",
+   "func (k Keeper) iterator(ctx sdk.Context, prefix []byte) storetypes.Iterator",
+   "  store := ctx.KVStore(k.storeKey)",
+   "  return storetypes.KVStorePrefixIterator(store, prefix)",
+   "func (k Keeper) LockIteratorBeforeTime(ctx sdk.Context, time time.Time) storetypes.Iterator",
+   "  unlockingPrefix := unlockingPrefix(true)",
+   "  return k.iteratorBeforeTime(ctx, combineKeys(unlockingPrefix, types.KeyPrefixLockTimestamp), time)",
+   "func (k Keeper) AccountLockIteratorBeforeTime(ctx sdk.Context, addr sdk.AccAddress, time time.Time) storetypes.Iterator",
+   "  unlockingPrefix := unlockingPrefix(true)",
+   "  return k.iteratorBeforeTime(ctx, combineKeys(unlockingPrefix, types.KeyPrefixAccountLockTimestamp, addr), time)",
+   "func (k Keeper) LockIteratorAfterTimeDenom(ctx sdk.Context, denom string, time time.Time) storetypes.Iterator",
+   "  unlockingPrefix := unlockingPrefix(true)",
+   "  return k.iteratorAfterTime(ctx, combineKeys(unlockingPrefix, types.KeyPrefixDenomLockTimestamp, []byte(denom)), time)",
+   "func (k Keeper) LockIteratorLongerThanDurationDenom(ctx sdk.Context, isUnlocking bool, denom string, duration time.Duration) storetypes.Iterator",
+   "  unlockingPrefix := unlockingPrefix(isUnlocking)",
+   "  return k.iteratorLongerDuration(ctx, combineKeys(unlockingPrefix, types.KeyPrefixDenomLockDuration, []byte(denom)), duration)",
+   "func (k Keeper) AccountLockIterator(ctx sdk.Context, isUnlocking bool, addr sdk.AccAddress) storetypes.Iterator",
+   "  unlockingPrefix := unlockingPrefix(isUnlocking)",
+   "  return k.iterator(ctx, combineKeys(unlockingPrefix, types.KeyPrefixAccountLockDuration, addr))",
+   "func (k Keeper) AccountLockIteratorDuration(ctx sdk.Context, isUnlocking bool, addr sdk.AccAddress, duration time.Duration) storetypes.Iterator",
+   "  unlockingPrefix := unlockingPrefix(isUnlocking)",
+   "  return k.iteratorDuration(ctx, combineKeys(unlockingPrefix, types.KeyPrefixAccountLockDuration, addr), duration)",
+   "func (k Keeper) LockIteratorDenom(ctx sdk.Context, isUnlocking bool, denom string) storetypes.Iterator",
+   "  unlockingPrefix := unlockingPrefix(isUnlocking)",
+   "  return k.iterator(ctx, combineKeys(unlockingPrefix, types.KeyPrefixDenomLockDuration, []byte(denom)))",
+   "func (k Keeper) addLockRefs(ctx sdk.Context, lock types.PeriodLock) error",
+   "  refKeys, err := durationLockRefKeys(lock)",
+   "  if lock.IsUnlocking()",
+   "    refKeys, err = lockRefKeys(lock)",
+   "  if err != nil",
+   "    return err",
+   "  lockRefPrefix := unlockingPrefix(lock.IsUnlocking())",
+   "  for _, refKey := range refKeys",
+   "    err := k.addLockRefByKey(ctx, combineKeys(lockRefPrefix, refKey), lock.ID)",
+   "    if err != nil",
+   "      return err",
+   "  return nil",
+   "func (k Keeper) addLockRefByKey(ctx sdk.Context, key []byte, lockID uint64) error",
+   "  store := ctx.KVStore(k.storeKey)",
+   "  lockIDBz := sdk.Uint64ToBigEndian(lockID)",
+   "  endKey := combineKeys(key, lockIDBz)",
+   "  if store.Has(endKey)",
+   "    return fmt.Errorf(lockID)",
+   "  store.Set(endKey, lockIDBz)",
+   "  return nil"] := rfl
+
+-- x/dymns store keys --------------------------------------------------------------------------------------
+
+theorem dymNameKey_eq : Gen.Keys.dymNameKey = dymNameKey := by funext x; rfl
+theorem dymNamesOwnedByAccountRvlKey_eq : Gen.Keys.dymNamesOwnedByAccountRvlKey = dymNamesOwnedByAccountRvlKey := by
+  funext x; rfl
+theorem configuredAddressToDymNamesIncludeRvlKey_eq :
+    Gen.Keys.configuredAddressToDymNamesIncludeRvlKey = configuredAddressToDymNamesIncludeRvlKey := by funext x; rfl
+theorem fallbackAddressToDymNamesIncludeRvlKey_eq :
+    Gen.Keys.fallbackAddressToDymNamesIncludeRvlKey = fallbackAddressToDymNamesIncludeRvlKey := by funext x; rfl
+theorem sellOrderKey_eq : Gen.Keys.sellOrderKey = sellOrderKey := by funext x t; cases t <;> rfl
+theorem keyCountBuyOrders_eq : Gen.Keys.keyCountBuyOrders = keyCountBuyOrders := rfl
+theorem buyOrderKey_eq : Gen.Keys.buyOrderKey = buyOrderKey := by funext x; rfl
+theorem buyerToOrderIdsRvlKey_eq : Gen.Keys.buyerToOrderIdsRvlKey = buyerToOrderIdsRvlKey := by funext x; rfl
+theorem dymNameToBuyOrderIdsRvlKey_eq : Gen.Keys.dymNameToBuyOrderIdsRvlKey = dymNameToBuyOrderIdsRvlKey := by
+  funext x; rfl
+theorem aliasToBuyOrderIdsRvlKey_eq : Gen.Keys.aliasToBuyOrderIdsRvlKey = aliasToBuyOrderIdsRvlKey := by funext x; rfl
+theorem rollAppIdToAliasesKey_eq : Gen.Keys.rollAppIdToAliasesKey = rollAppIdToAliasesKey := by funext x; rfl
+theorem aliasToRollAppIdRvlKey_eq : Gen.Keys.aliasToRollAppIdRvlKey = aliasToRollAppIdRvlKey := by funext x; rfl
+
+/-- the family prefixes of the model (`DymnsKey.familyPrefix`) are the source's `KeyPrefix…` values -/
+theorem dymns_family_prefixes :
+    (DymnsKey.dymName []).familyPrefix = Gen.Keys.dymnsKeyPrefixDymName ∧
+    (DymnsKey.ownedBy []).familyPrefix = Gen.Keys.dymnsKeyPrefixRvlDymNamesOwnedByAccount ∧
+    (DymnsKey.cfgAddr []).familyPrefix = Gen.Keys.dymnsKeyPrefixRvlConfiguredAddressToDymNamesInclude ∧
+    (DymnsKey.fallback []).familyPrefix = Gen.Keys.dymnsKeyPrefixRvlFallbackAddressToDymNamesInclude ∧
+    (DymnsKey.sellOrder [] .name).familyPrefix = Gen.Keys.dymnsKeyPrefixDymNameSellOrder ∧
+    (DymnsKey.sellOrder [] .alias).familyPrefix = Gen.Keys.dymnsKeyPrefixAliasSellOrder ∧
+    DymnsKey.countBuyOrders.familyPrefix = Gen.Keys.keyCountBuyOrders ∧
+    (DymnsKey.buyOrder []).familyPrefix = Gen.Keys.dymnsKeyPrefixBuyOrder ∧
+    (DymnsKey.buyer []).familyPrefix = Gen.Keys.dymnsKeyPrefixRvlBuyerToBuyOrderIds ∧
+    (DymnsKey.nameToBuyOrders []).familyPrefix = Gen.Keys.dymnsKeyPrefixRvlDymNameToBuyOrderIds ∧
+    (DymnsKey.aliasToBuyOrders []).familyPrefix = Gen.Keys.dymnsKeyPrefixRvlAliasToBuyOrderIds ∧
+    (DymnsKey.rollappToAliases []).familyPrefix = Gen.Keys.dymnsKeyPrefixRollAppIdToAliases ∧
+    (DymnsKey.aliasToRollapp []).familyPrefix = Gen.Keys.dymnsKeyPrefixRvlAliasToRollAppId ∧
+    Gen.Keys.dymnsKeyPrefixSellOrder = [5] :=
+  ⟨rfl, rfl, rfl, rfl, rfl, rfl, rfl, rfl, rfl, rfl, rfl, rfl, rfl, rfl⟩
+
 end DymVerif.GenEq
